@@ -415,7 +415,9 @@ impl<F: PrimeField> Circuit<F> for ShapeCircuit<F> {
                             r.assign_advice_from_constant(|| "k", c.adv[*c1], row, F::from(*k))?;
                         }
                         Copy::EqR(c1, r1, c2, r2) => {
-                            let v = free(*c1, *r1);
+                            // one common value for every explicit-row equality cell, so that chains of such
+                            // copies (classes of any size) are satisfied by the honest witness
+                            let v = free(1000, 0);
                             let a = match done.get(&(*c1, *r1)) {
                                 Some(cell) => *cell,
                                 None => {
